@@ -58,11 +58,14 @@ type simpleRes struct {
 	tpl string
 }
 
-func entry(n int, sel string) (string, string) {
-	// a menu line "sel:title" of exactly n bytes
+func entry(n int, sel string, utf bool) (string, string) {
+	// a menu line "sel:title" of exactly n bytes (with utf: the title in two-byte characters)
 	t := n - len(sel) - 1
 	if t < 1 {
 		t = 1
+	}
+	if utf {
+		return sel, strings.Repeat("\u00b5", t/2) + strings.Repeat("m", t%2)
 	}
 	return sel, strings.Repeat("m", t)
 }
@@ -107,9 +110,9 @@ func renderFamily(c renderCfg, maxidx int) renderEvent {
 	if c.ErrLen > 0 {
 		static = errText + "\n" + static
 	}
-	nextSel, nextTitle := entry(c.NextLen, "11")
-	prevSel, prevTitle := entry(c.PrevLen, "22")
-	ordSel, ordTitle := entry(c.Menu, "0")
+	nextSel, nextTitle := entry(c.NextLen, "11", c.Utf)
+	prevSel, prevTitle := entry(c.PrevLen, "22", c.Utf)
+	ordSel, ordTitle := entry(c.Menu, "0", c.Utf)
 	ev := renderEvent{Ev: "render", Cfg: c, Rows: rows}
 	for idx := 0; idx <= maxidx; idx++ {
 		var out string
